@@ -22,77 +22,12 @@ How Go maps to Lean here
 * `DbBlockHeader` ≙ `BlockHeader` ≙ `DbMerkleRoot` ≙ `Row H` on the fields the code reads (Height, MerkleRoot, State).
 * reads are infallible apart from "no rows" (connection failures are not modelled).
 -/
-import BHS.Model.Query
+import BHS.Model.MerkleRootsCore
 import BHS.Model.Http
 
 namespace BHS.MerkleRootsPrim
 open BHS BHS.Chain
-
-/-- outcomes the translation gives no meaning to -/
-inductive Fault where
-  | noRow             -- nil pointer dereference / read of a struct variable no row was scanned into
-  | indexOutOfRange   -- `xs[i]` outside the slice (Go panics)
-  | negativeLimit     -- `LIMIT ?` with a negative argument: engine dependent (SQLite: unlimited; PostgreSQL: error)
-deriving DecidableEq, Repr
-
-/-- the `error` values of this code path -/
-inductive Err where
-  | sqlNoRows                                   -- database/sql.ErrNoRows
-  | numError                                    -- *strconv.NumError of a failed strconv.Atoi
-  | bhs (name : String)                         -- bhserrors.<name>
-  | new (msg : String)                          -- errors.New(msg)
-  | wrap (msg : String) (cause : Err)           -- pkg/errors.Wrap(cause, msg)
-  | bhsWrap (name : String) (cause : Err)       -- bhserrors.<name>.Wrap(cause), cause non-nil
-deriving DecidableEq, Repr
-
-/-- `errors.Is(err, sql.ErrNoRows)`: the chain of causes is searched -/
-def Err.isNoRows : Err → Bool
-  | .sqlNoRows => true
-  | .wrap _ c => c.isNoRows
-  | .bhsWrap _ c => c.isNoRows
-  | _ => false
-
-def isNoRows (e : Option Err) : Bool := match e with
-  | some e => e.isNoRows
-  | none => false
-
-/-- pkg/errors.Wrap: wrapping nil is nil -/
-def errorsWrap (e : Option Err) (msg : String) : Option Err := e.map (Err.wrap msg)
-
-/-- bhserrors.<name>.Wrap(cause): a BHSError whose cause may be nil -/
-def bhsWrap (name : String) (cause : Option Err) : Option Err :=
-  some (match cause with | some c => .bhsWrap name c | none => .bhs name)
-
 variable {H : Type} [DecidableEq H]
-
-/-! ### pointers, slices, loops -/
-
-/-- `p.F`, `*p`, a pointer-receiver method on `p` -/
-def deref {α : Type} : Option α → Except Fault α
-  | some a => pure a
-  | none => throw .noRow
-
-/-- `xs[i]` -/
-def index {α : Type} (xs : List α) (i : Int) : Except Fault α :=
-  if i < 0 then throw .indexOutOfRange
-  else match xs[i.toNat]? with
-    | some a => pure a
-    | none => throw .indexOutOfRange
-
-/-- `xs[i].F = v` (and `xs[i] = v`): the element at `i` replaced by `f` of it -/
-def modifyAt {α : Type} (xs : List α) (i : Int) (f : α → α) : Except Fault (List α) :=
-  if i < 0 then throw .indexOutOfRange
-  else match xs[i.toNat]? with
-    | some a => pure (xs.set i.toNat (f a))
-    | none => throw .indexOutOfRange
-
-def forRangeFrom {α σ : Type} (f : Int → α → σ → Except Fault σ) : Int → List α → σ → Except Fault σ
-  | _, [], st => pure st
-  | i, x :: xs, st => f i x st >>= forRangeFrom f (i + 1) xs
-
-/-- `for i, x := range xs { body }`: `st` = the outer variables the body assigns -/
-def forRange {α σ : Type} (xs : List α) (init : σ) (f : Int → α → σ → Except Fault σ) : Except Fault σ :=
-  forRangeFrom f 0 xs init
 
 /-- (*dto.DbBlockHeader).ToBlockHeader: the same row as a domain header (work strings parsed: not read here) -/
 def toBlockHeader (r : Option (Row H)) : Except Fault (Option (Row H)) :=
